@@ -146,8 +146,9 @@ def gen(rng, tier, shard, nshards):
                 if not n["mux"] and rng.random() < 0.7:
                     d.append([n["s"][0], F.rand_raw(rng, n["s"])])
             rng.shuffle(d)
+        pre = [steer_payload(rng, nbytes, nodes) for _ in range(rng.choice([0, 0, 1, 2, 3]))]
         yield {"op": "mux", "c": {"size": nbytes, "nodes": nodes, "mulvals": mulvals, "src": src,
-                                  "data": steer_payload(rng, nbytes, nodes), "d": d}}
+                                  "data": steer_payload(rng, nbytes, nodes), "d": d, "pre": pre}}
 
 
 def neighbours(case, rng, shard, nshards):
@@ -195,6 +196,9 @@ def observe(case):
                        bool(s.is_multiplexer), s.mux_val, [list(r) for r in s.mux_val_grp], s.muxer_for_signal]
                       for s in fr.signals],
              "cx": bool(fr.is_complex_multiplexed)}
+    # decoding must not depend on what the same Frame object decoded before (other selector values first)
+    for pre in c.get("pre", []):
+        F.observe_decode(fr, pre)
     r = {"f": fdesc, "dec": F.observe_decode(fr, c["data"]), "enc": None, "encdec": None}
     if "error with line" in out:
         r["readerr"] = out[:200]
@@ -218,6 +222,7 @@ def features(case, impl):
     nm = sum(1 for n in c["nodes"] if n["mux"])
     yield "multiplexers=%d" % nm
     yield "encode-request" if c["d"] is not None else "decode-only"
+    yield "earlier-decodes-on-the-same-frame=%d" % len(c.get("pre", []))
     if "ok" in impl["dec"]:
         yield "decoded-keys=%s" % ("few" if len(impl["dec"]["ok"]) <= 3 else "many")
         act_mux = sum(1 for n in c["nodes"] if n["mux"] and n["s"][0] in impl["dec"]["ok"])
